@@ -154,7 +154,17 @@ func MutateNames(p *Program, intn func(int) int, k int) int {
 		collectNames(q.Body, names)
 	}
 	pool := append(SortedKeys(names), "self", "zz")
-	pick := func() string { return pool[intn(len(pool))] }
+	pick := func() string {
+		n := pool[intn(len(pool))]
+		// now and then an explicit polarity annotation on the name
+		switch intn(8) {
+		case 1:
+			return "+" + n
+		case 2:
+			return "-" + n
+		}
+		return n
+	}
 	n := 1 + intn(k)
 	done := 0
 	for i := 0; i < n; i++ {
